@@ -10,7 +10,8 @@ from gambatools.dfa import DFA
 from gambatools.nfa_algorithms import nfa_to_dfa
 
 ASSUMPTIONS = [
-    "NFA transition maps in the three representations the library produces; state names \\w+; single-character symbols",
+    "NFA transition maps in the three representations the library produces; state names \\w+ or labels of earlier constructions ({q0,q1}, (q0,q1)); single-character symbols; "
+    "the meaning of the initial state's label is only checked for plain names",
     "names of non-initial result states and the number of result states are not constrained (not stated by the property)",
 ]
 
@@ -55,7 +56,8 @@ def run(case):
         raise Fail("language", "result and NFA differ on word %r (NFA accepts: %r)" % (w, fa.nfa_accepts(spec, w)), word=w)
     init = parse_label(snap["q0"])
     want = fa.eclose(spec, {spec["q0"]})
-    if init != want:
+    plain_names = all(c not in q for q in spec["Q"] for c in "{},")
+    if plain_names and init != want:
         raise Fail("initial_state", "initial state %r does not stand for the eps-closure %r of the NFA's initial state" % (snap["q0"], sorted(want)))
     reach = fa.reachable(R)
     if len(reach) != len(snap["Q"]):
@@ -79,7 +81,15 @@ def run(case):
 
 @st.composite
 def cases(draw, tier):
-    return {"nfa": draw(G.mixed_nfa_specs(max_states=5 if tier == "quick" else 6)), "logging": draw(st.integers(0, 5)) == 0}
+    spec = draw(G.mixed_nfa_specs(max_states=5 if tier == "quick" else 6))
+    if draw(st.integers(0, 5)) == 0:
+        # state names as earlier constructions produce them (subset labels, pairs): {q0}, {q0,q1}, {}, (q0,q1)
+        labels = ["{q0}", "{q0,q1}", "{}", "{q1}", "(q0,q1)", "{q0,q1,q2}", "{{q0},{q1}}", "(q1,q0)"]
+        m = dict(zip(spec["Q"], draw(st.permutations(labels))[:len(spec["Q"])])) if len(spec["Q"]) <= len(labels) else {}
+        if m:
+            spec = {"Q": [m[q] for q in spec["Q"]], "S": spec["S"], "d": [[m[p], a, m[q]] for p, a, q in spec["d"]], "q0": m[spec["q0"]],
+                    "F": [m[q] for q in spec["F"]], "eps": spec["eps"], "rep": spec["rep"]}
+    return {"nfa": spec, "logging": draw(st.integers(0, 5)) == 0}
 
 
 def ex(tier):
